@@ -12,6 +12,7 @@ for f in "$DIR"/*.diff; do
   git -C "$WT" checkout -q -- . && git -C "$WT" clean -fdq
   if ! git -C "$WT" apply "$f" 2>/dev/null; then echo "$(basename $f): DOES NOT APPLY"; continue; fi
   if ! (cd "$WT" && go build ./... >/dev/null 2>&1); then echo "$(basename $f): DOES NOT BUILD"; continue; fi
-  res=$(for p in $PROPS; do echo $p; done | xargs -P 10 -I{} bash -c 'O=$(mktemp -d /tmp/anndb-matrix-out.XXXXXX); mkdir -p $O/evidence; out=$(${BIN:-/verif/bin/anndbcheck} -repo '"$WT"' -verif /verif -out $O -prop {} 2>&1); rc=$?; rm -rf $O; if [ $rc -eq 1 ]; then echo "{}: $(echo "$out" | grep -m1 -E "^(VIOLATED|UNDECIDED)" | cut -c1-230)"; elif [ $rc -ne 0 ]; then echo "{}: rc=$rc"; fi' | sort)
+  O=$(mktemp -d /tmp/anndb-matrix-out.XXXXXX); mkdir -p $O/evidence
+  res=$(${BIN:-/verif/bin/anndbcheck} -repo "$WT" -verif /verif -out $O -prop all 2>&1 | awk '/^(VIOLATED|UNDECIDED)/ { if (first == "") first = substr($0, 1, 230) } /^C[0-9]+ quick:/ { if ($(NF-2) + 0 > 0) print $1 ": " first; first = "" } /^cannot analyse/ { print "ALL: " $0 }'); rm -rf $O
   echo "== $(basename $f)"; if [ -z "$res" ]; then echo "   (no check reports it)"; else echo "$res" | sed 's/^/   /'; fi
 done
